@@ -99,7 +99,7 @@ def opt_obs(tier):
     return o
 
 def line_obs(tier):
-    N = 12 if tier == "quick" else 14
+    N = 10 if tier == "quick" else 12
     H = 6 if tier == "quick" else 8
     F = 6 if tier == "quick" else 8
     rc = [["--replace-calls", "evdns_base_set_option_impl:c39_opt_recorder"]]
@@ -109,7 +109,7 @@ def line_obs(tier):
         return ob(name, "harness_resolv", desc, ["C39_N=%d" % n, "C39_AF=%d" % af] + extra, unwind=max(n + 3, 12), instrument=rc, timeout=900, mem_gb=8,
                   unwindset=["resolv_conf_parse_line.2:%d" % ((n - 6) // 2 + 2), "resolv_conf_parse_line.3:%d" % ((n - 7) // 2 + 2)], **kw)
     for af, what in ((1, "yields an IPv4 address"), (0, "rejects the address"), (2, "yields an IPv6 address")):
-        n = N if af == 1 else 12
+        n = N if af == 1 else 10
         o.append(rl("resolv_line_N%d_af%d" % (n, af), n, af, ["KF_EXCLUDE_NDOTS_RESET"],
                     "resolv_conf_parse_line(any line <= %d bytes in an exact object, any flags; the address parser %s) on a base with 0/1 nameserver and "
                     "0/1 search domain: nameserver ring, search list (order, leading dots), ndots, (option,value) pairs handed to the option routine == "
